@@ -448,7 +448,8 @@ class NumericValue(Value):
             self.int = int(data.group("value"), 2)
             if bit_length == 8 and size_hint is None:
                 self.size_hint = 2
-                if self.explict_addressing_mode != ExplicitAddressingMode.IMMEDIATE:
+                if self.explict_addressing_mode not in (
+                        ExplicitAddressingMode.IMMEDIATE, ExplicitAddressingMode.EXPLICIT_EXTENDED):
                     self.explict_addressing_mode = ExplicitAddressingMode.DIRECT
             return
 
@@ -459,7 +460,8 @@ class NumericValue(Value):
             self.int = int(data.group("value"), 16)
             if len(data.group("value")) == 2 and size_hint is None:
                 self.size_hint = 2
-                if self.explict_addressing_mode != ExplicitAddressingMode.IMMEDIATE:
+                if self.explict_addressing_mode not in (
+                        ExplicitAddressingMode.IMMEDIATE, ExplicitAddressingMode.EXPLICIT_EXTENDED):
                     self.explict_addressing_mode = ExplicitAddressingMode.DIRECT
             if self.explict_addressing_mode == ExplicitAddressingMode.NONE:
                 self.explict_addressing_mode = ExplicitAddressingMode.EXTENDED
